@@ -6,6 +6,7 @@ toolchain go1.24.1
 
 require (
 	buf.build/gen/go/bufbuild/protovalidate/protocolbuffers/go v1.36.6-20250307204501-0409229c3780.1
+	github.com/bufbuild/protocompile v0.14.1
 	github.com/bufbuild/protovalidate-go v0.9.2
 	github.com/iancoleman/strcase v0.3.0
 	github.com/pentops/j5 v0.0.0
@@ -18,7 +19,6 @@ require (
 	buf.build/go/protoyaml v0.3.1 // indirect
 	cel.dev/expr v0.22.0 // indirect
 	github.com/antlr4-go/antlr/v4 v4.13.1 // indirect
-	github.com/bufbuild/protocompile v0.14.1 // indirect
 	github.com/fatih/color v1.18.0 // indirect
 	github.com/google/cel-go v0.24.1 // indirect
 	github.com/google/uuid v1.6.0 // indirect
